@@ -107,16 +107,27 @@ class LagrangeMultipliers:
         EQUALITY,
     ]
 
-    def __init__(self, opt_problem: OptimizationProblem) -> None:
+    def __init__(
+        self, opt_problem: OptimizationProblem, reset_counters: bool = True
+    ) -> None:
         """
         Args:
             opt_problem: The optimization problem
                 on which Lagrange multipliers shall be computed.
+            reset_counters: Whether to reset the counter of evaluations
+                and the numbers of calls of the functions of the problem,
+                as required to post-process a problem
+                whose maximum number of iterations has been reached.
+                This must be ``False``
+                when the multipliers are computed during the execution of a driver,
+                otherwise the maximum number of iterations is no longer enforced.
         """  # noqa: D205, D212, D415
         self.optimization_problem = opt_problem
-        self.optimization_problem.reset(
-            database=False, design_space=False, preprocessing=False
-        )
+        if reset_counters:
+            self.optimization_problem.reset(
+                database=False, design_space=False, preprocessing=False
+            )
+
         self.active_lb_names = []
         self.active_ub_names = []
         self.active_ineq_names = []
